@@ -338,3 +338,54 @@ type Speaker struct {
 	Name  string
 	Langs []Lang `gorm:"many2many:speaker_langs"`
 }
+
+// database-generated default (C03: defaults come back with RETURNING, in slice order)
+type Ticket struct {
+	ID    uint
+	Title string
+	Code  string `gorm:"default:gen_code()"`
+	Rank  int    `gorm:"default:7"`
+}
+
+// embedded structs with prefixes (C03)
+type Addr struct {
+	City string
+	Zip  int
+}
+type KEmbedded struct {
+	ID   uint
+	Addr `gorm:"embedded;embeddedPrefix:addr_"`
+	Work Addr  `gorm:"embedded;embeddedPrefix:work_"`
+	Home *Addr `gorm:"embedded;embeddedPrefix:home_"`
+}
+
+// default tags (C03)
+type KDefault struct {
+	ID    uint
+	Rank  int    `gorm:"default:7"`
+	Label string `gorm:"default:none"`
+	On    bool   `gorm:"default:true"`
+}
+
+// composite, caller-assigned key (C03)
+type KComposite struct {
+	A uint   `gorm:"primaryKey;autoIncrement:false"`
+	B string `gorm:"primaryKey"`
+	V int
+}
+
+// auto time variants (C03)
+type KAutoTime struct {
+	ID        uint
+	CreatedAt time.Time
+	UpdatedAt int64
+	Made      int64 `gorm:"autoCreateTime:milli"`
+	Nano      int64 `gorm:"autoUpdateTime:nano"`
+	V         int
+}
+
+type KFloat struct {
+	ID uint
+	V  float64
+	W  float32
+}
